@@ -338,13 +338,16 @@ def run_random(ctx, index):
         before = snap.snap(t)
         desc = dict(desc0, op='head', n=n, m=m, layout=st)
         if n <= 0 or m <= 0:
+            # outside the statement (the docstring promises IndexError, the
+            # property does not): only observed, and the table must survive
             try:
                 t.head(n, m)
-            except IndexError:
+            except Exception:
                 ctx.count('head_refused')
-            else:
-                raise Violation('C08/head-not-refused', 'head(%d,%d) did not '
-                                'raise IndexError; case=%r' % (n, m, desc))
+            d = snap.diff(snap.snap(t), before)
+            if d:
+                raise Violation('C08/receiver-modified', 'head(%d,%d): %s; '
+                                'case=%r' % (n, m, '; '.join(d), desc))
         else:
             res = t.head(n, m)
             exp = expected_filter(spec, spec.obs_ids[:n], 'observation',
